@@ -916,6 +916,7 @@ func Run(cfg hx.Config) (*hx.Meta, error) {
 	wg.Wait()
 
 	s.runMulti()
+	s.runDegenerate()
 
 	write := func(name string, lines []string) {
 		if len(lines) == 0 {
